@@ -37,6 +37,16 @@ package tan
 //@      i.entries[j].pos >= 0 && i.entries[j].length >= 0 && i.entries[j].pos + i.entries[j].length < 4611686018427387904) &&
 //@   (forall j int :: 0 <= j && j < len(i.entries) - 1 ==> i.entries[j].end < i.entries[j + 1].start)
 
+//@ pred validEntry(e indexEntry) := e.start <= e.end && e.start > 0 && e.end < MaxUint64 && e.pos >= 0 && e.length >= 0 && e.pos + e.length < 4611686018427387904
+
+// appending a range that lies strictly after the last one keeps the index sorted
+//@ func (i *index) append [C09]
+//@ noframe
+//@ requires i.sorted() && validEntry(e) && (len(i.entries) > 0 ==> i.entries[len(i.entries) - 1].end < e.start)
+//@ modifies i.entries, elems(i.entries[len(i.entries):])
+//@ ensures i.sorted() && len(i.entries) == old(len(i.entries)) + 1 && i.entries[len(i.entries) - 1] == e
+//@ ensures forall j int :: 0 <= j && j < old(len(i.entries)) ==> i.entries[j] == old(i.entries[j])
+
 //@ func (i *index) update [C09]
 //@ noframe
 //@ requires i.sorted() && e.start <= e.end && e.start > 0 && e.end < MaxUint64 && e.pos >= 0 && e.length >= 0 && e.pos + e.length < 4611686018427387904
